@@ -87,8 +87,38 @@ func runC05(w *W) {
 			}
 		}
 	}
+	walkLunar = true
 	sweepDays(w, "C05", func(d *Day, prev *Day) {
 		l0 := d.L()
+		// objects reached by navigation have the pillars of the directly built ones: the walking object at 00:00:00 and
+		// single hops (forward from the previous day, backward from the next, and a hop of a lunar month) at 23:30 / 12:00
+		{
+			type rt struct {
+				name string
+				o    *calendar.Lunar
+				ref  *calendar.Lunar
+			}
+			rts := []rt{{"walking object (Next(1) since the start of the range)", curWalk, l0}}
+			for k, n := range []int{1, -1, []int{29, -29, 30, -30, 15, -15}[d.J%6]} {
+				h := []int{23, 12, 0}[k]
+				mi := []int{30, 0, 59}[k]
+				var o, ref *calendar.Lunar
+				try(func() {
+					ref = d.At(h, mi, 0).GetLunar()
+					o = d.At(h, mi, 0).NextDay(-n).GetLunar().Next(n)
+				})
+				rts = append(rts, rt{fmt.Sprintf("object %d days away at %02d:%02d .Next(%d)", -n, h, mi, n), o, ref})
+			}
+			for _, r := range rts {
+				if r.o == nil || r.ref == nil || r.o.GetSolar().ToYmdHms() != r.ref.GetSolar().ToYmdHms() {
+					continue
+				}
+				w.R.Evals++
+				if a, b := pillarSig(r.o), pillarSig(r.ref); a != b {
+					w.Viol("C05:route:"+d.Ymd, fmt.Sprintf("%s: pillars of the %s are %s, of the directly built object %s", r.ref.GetSolar().ToYmdHms(), r.name, a, b), d.Ymd)
+				}
+			}
+		}
 		terms := termsOf(l0)
 		if len(terms) != 31 {
 			w.Viol("C05:termtable:"+d.Ymd, fmt.Sprintf("term table has %d entries", len(terms)), d.Ymd)
